@@ -274,8 +274,10 @@ class ParseMCNPCell:
 
     SHORTHAND_RE = re.compile(r'^(?:[0-9]*(?:[jri]|i?log)|[-+0-9.e]*m)$')
     # FILL followed by ranges, then numbers or shorthand, then a parenthesis
+    # (one character class, so that the search stays linear in the length of
+    # the array; no other keyword consists of the shorthand letters only)
     FILL_ARRAY_PAREN_RE = re.compile(
-        r'fill[\s=]*[-+]?[0-9]+:(?:[-+0-9.:\s]|[0-9]*[rimj](?![a-z]))*\(')
+        r'fill[\s=]*[-+]?[0-9]+:[-+0-9.:\srimj]*\(')
 
     @classmethod
     def pop_transform_numbers(cls, kw_list):
